@@ -4,8 +4,9 @@ Runs the real saml2.assertion.filter_on_attributes / Policy.filter / Policy.rest
 Assertion.apply_policy (with a real MetadataStore parsed from rendered SP metadata, with a stub
 store, or without a store; with and without the fail_on_missing argument) and the real
 Server.create_authn_response (best_effort unset / False / True; the outcome kind - assertion with its
-AttributeStatement, or error response without assertion - is read back with xml.etree); Coq evaluates
-model = implementation and the property on the implementation's output.
+AttributeStatement, or error response without assertion - is read back with xml.etree) and
+Server.create_attribute_response (the attribute authority's policy; entry "aa", in Coq the Server entry without
+best effort); Coq evaluates model = implementation and the property on the implementation's output.
 
 A case is the LIFE of one long-lived object: the list of calls made on one Policy (or on one Server and its
 policy), the metadata store refreshed in between (observe_life); most cases are lives of one call on a fresh
@@ -59,6 +60,20 @@ RULE = ("complete products: Policy.get precedence (presence of requester / regis
         "changes; the store is refreshed by MetadataStore.reload / by replacing the sources / by re-parsing in place; "
         "~220 random lives (2-5 calls, random policy, description mutated by 1-2 edits per refresh).  Every call of a life "
         "is compared with the model and judged against the requester as described AT THAT CALL.  "
+        "SUBJECT-ID REQUIREMENT x OWN LISTING (round 5): the requester's subject-id:req entity attribute 5 (subject-id / "
+        "pairwise-id / any / none / no attribute) x how its AttributeConsumingService lists that identifier 15 (not at all; "
+        "optional with isRequired omitted / 'false' / '1'; required as the very dict the store answers / as another dict; "
+        "with a value the user holds / does not hold; NameFormat omitted; FriendlyName in capitals; only the OTHER "
+        "identifier; optional AND required; one required + one optional) x identifiers the user holds 4, entry point 4 "
+        "(Policy.restrict / Assertion.apply_policy / Server.create_authn_response / Server.create_attribute_response) and "
+        "position of the identifier in the document taking turns; every SOURCE of the choice about failing 13 (no policy, "
+        "default / requester / registration-authority section set, unset or shadowing, the fail_on_missing argument, "
+        "best_effort) x entry point 4 x listing 4 with a user who lacks the identifier + 1 control who holds it; spelling "
+        "of the entity attribute (first value 4 x further values 3 x same Attribute / second Attribute / second "
+        "EntityAttributes element x before / after the entity-category attribute); 150 random cases and 27 lives (listing "
+        "changes while the requirement stays, requirement changes while the listing stays, a federation of 8 requesters "
+        "on one object) forced into that neighbourhood; the attribute authority (create_attribute_response): the Server "
+        "product without best_effort.  "
         "non-trivial = distinct (entry point, "
         "best_effort / fail_on_missing argument, applicable section kind, restriction kind, entity-category mode, "
         "declaration shape, outcome) classes other than 'nothing configured, everything released'")
@@ -88,6 +103,11 @@ ASSUMPTIONS = ["attribute names, FriendlyNames and entity ids are ASCII (the mod
                "fail_on_missing_requested (default True)",
                "a requester about which nothing is known (Policy without metadata store) is in no entity category",
                "Server.create_authn_response is exercised on its non-PEFIM branch, unsigned, unencrypted",
+               "Server.create_attribute_response (attribute authority) is given a non-empty identity and no `attributes` "
+               "argument; its outcome is judged as the Server entry without best effort (a MissingValue exception = the "
+               "error; an AttributeStatement read back from the Response = the release)",
+               "subject-id:req: what the requester requires is what the FIRST value of the merged entity attribute says "
+               "(MetadataStore.subject_id_requirement); 'any' asks for pairwise-id AND subject-id (the code's reading)",
                "a life: the policy configuration of an object is fixed at construction; what the metadata store says about a "
                "requester at the time of a call is the requester's description for that call (a refresh between calls is "
                "complete before the next call starts); a requester missing from the store is not exercised with entity "
@@ -369,8 +389,20 @@ def render_policy(pol, rng):
     return cfg
 
 
-def mk_md(mode="real", ras=(), sid=None, ecs=(), ra=None, split=0):
-    return {"mode": mode, "ras": list(ras), "sid": sid, "ecs": list(ecs), "ra": ra, "split": split}
+def mk_md(mode="real", ras=(), sid=None, ecs=(), ra=None, split=0, sid_more=(), sid_shape=None, sid_first=False,
+          sid_nonf=False):
+    """sid: FIRST value of the subject-id:req entity attribute (None: no such attribute); sid_more / sid_shape /
+    sid_first / sid_nonf: how the rendered metadata spell the attribute (see sp_md_xml) - recorded only when used."""
+    md = {"mode": mode, "ras": list(ras), "sid": sid, "ecs": list(ecs), "ra": ra, "split": split}
+    if sid is not None and mode == "real":
+        if sid_more:
+            md["sid_more"] = list(sid_more)
+            md["sid_shape"] = sid_shape or "one"
+        if sid_first:
+            md["sid_first"] = True
+        if sid_nonf:
+            md["sid_nonf"] = True
+    return md
 
 
 def mk_case(tag, entry, ident, pol=None, md=None, req=(), opt=(), fail=True, rng=None, be=None, fo=None):
@@ -449,16 +481,36 @@ def sp_md_xml(md, sp=SP):
     if md["ra"] is not None:
         ext += ('<mdrpi:RegistrationInfo xmlns:mdrpi="urn:oasis:names:tc:SAML:metadata:rpi" registrationAuthority=%s/>'
                 % quoteattr(md["ra"]))
-    ea = ""
+    ea = ea2 = ""
     if md["ecs"]:
         ea += '<saml:Attribute Name="http://macedir.org/entity-category" NameFormat="%s">%s</saml:Attribute>' % (
             URI, "".join("<saml:AttributeValue>%s</saml:AttributeValue>" % escape(c) for c in md["ecs"]))
     if md["sid"] is not None:
-        ea += '<saml:Attribute Name="%s" NameFormat="%s"><saml:AttributeValue>%s</saml:AttributeValue></saml:Attribute>' % (
-            SID_ATTR, URI, escape(md["sid"]))
-    if ea:
-        ext += ('<mdattr:EntityAttributes xmlns:mdattr="urn:oasis:names:tc:SAML:metadata:attribute" '
-                'xmlns:saml="urn:oasis:names:tc:SAML:2.0:assertion">%s</mdattr:EntityAttributes>' % ea)
+        # the subject-id:req entity attribute: md["sid"] is its FIRST value (the one the code reads); further values
+        # (md["sid_more"]) follow it in the same Attribute element / in a second Attribute element of that name / in a
+        # second mdattr:EntityAttributes element; the attribute stands after or before the entity-category attribute
+        more = list(md.get("sid_more") or [])
+        shape = md.get("sid_shape") or "one"
+        nf = "" if md.get("sid_nonf") else ' NameFormat="%s"' % URI
+
+        def sid_attr_x(vals):
+            return '<saml:Attribute Name="%s"%s>%s</saml:Attribute>' % (
+                SID_ATTR, nf, "".join("<saml:AttributeValue>%s</saml:AttributeValue>" % escape(v) for v in vals))
+
+        if not more or shape == "one":
+            sx = sid_attr_x([md["sid"]] + more)
+        elif shape == "two-attrs":
+            sx = sid_attr_x([md["sid"]]) + sid_attr_x(more)
+        else:
+            sx = sid_attr_x([md["sid"]])
+            ea2 = sid_attr_x(more)
+        ea = sx + ea if md.get("sid_first") else ea + sx
+    eas = ""
+    for e_ in (ea, ea2):
+        if e_:
+            eas += ('<mdattr:EntityAttributes xmlns:mdattr="urn:oasis:names:tc:SAML:metadata:attribute" '
+                    'xmlns:saml="urn:oasis:names:tc:SAML:2.0:assertion">%s</mdattr:EntityAttributes>' % e_)
+    ext += eas
     if ext:
         ext = "<md:Extensions>%s</md:Extensions>" % ext
     ras = md["ras"]
@@ -507,15 +559,20 @@ def _call(entry, step, ident, pol=None, idp=None):
             r = A.filter_on_attributes(ident, [ra_dict(x) for x in step["req"]] or None,
                                        [ra_dict(x) for x in step["opt"]] or None, acs(), step["fail"])
             out = {"k": "ok", "ava": abs_ava(r)}
-        elif entry == "server":
+        elif entry in ("server", "aa"):
             from saml2.saml import NAMEID_FORMAT_TRANSIENT, NameID
 
             nid = NameID(format=NAMEID_FORMAT_TRANSIENT, text="subject-1")
             kw = {}
             if step.get("be") is not None:
                 kw["best_effort"] = step["be"]
-            resp = idp.create_authn_response(ident, "req-1", world.SP_ACS_POST, sp, name_id=nid,
-                                             authn=dict(_AUTHN), **kw)
+            if entry == "aa":
+                # the attribute authority's answer to an AttributeQuery: the "aa" service's policy, no best effort;
+                # a MissingValue leaves create_attribute_response as an exception (no response, nothing released)
+                resp = idp.create_attribute_response(ident, "req-1", world.SP_ACS_POST, sp, name_id=nid)
+            else:
+                resp = idp.create_authn_response(ident, "req-1", world.SP_ACS_POST, sp, name_id=nid,
+                                                 authn=dict(_AUTHN), **kw)
             root = ET.fromstring(str(resp))
             if root.tag != NS_P + "Response":
                 raise RuntimeError("not a Response")
@@ -561,6 +618,25 @@ def _call(entry, step, ident, pol=None, idp=None):
     return out, self_after
 
 
+def make_aa(md_xmls, polcfg):
+    """One Server whose configuration has an attribute-authority service carrying the policy under test (local helper:
+    world.make_idp configures the "idp" service only; that one keeps the world's default policy here)."""
+    env.install_standin()
+    from saml2 import BINDING_SOAP
+    from saml2.config import IdPConfig
+    from saml2.server import Server
+
+    cfg = world.idp_config(metadata_xml=md_xmls)
+    cfg["service"]["aa"] = {"endpoints": {"attribute_service": [("https://idp.example.org/aa/soap", BINDING_SOAP)]},
+                            "policy": copy.deepcopy(polcfg)}
+    c = IdPConfig()
+    c.load(cfg)
+    srv = Server(config=c)
+    if srv.config.getattr("policy", "aa").metadata_store is not srv.metadata:
+        raise RuntimeError("the attribute authority's policy does not consult the Server's metadata store")
+    return srv
+
+
 def _regex_matrix(pol, ident_items):
     """regex matrix, exactly as the code asks the engine"""
     regs = set()
@@ -590,6 +666,8 @@ def observe(case):
         if entry == "server":
             env.install_standin()
             idp = world.make_idp(metadata_xml=[sp_md_xml(case["md"])], idp_policy=copy.deepcopy(case["polcfg"]))
+        elif entry == "aa":
+            idp = make_aa([sp_md_xml(case["md"])], case["polcfg"])
         elif entry != "foa":
             pol = A.Policy(copy.deepcopy(case["polcfg"]), make_store(case["md"]))
     except Exception as e:
@@ -812,6 +890,10 @@ def cq_entry(st):
                                        cq_opt(st.get("fo")))
     if e == "server":
         return "(EServer %s)" % cq(bool(st.get("be")))       # best_effort not given = False
+    if e == "aa":
+        # Server.create_attribute_response = Assertion.apply_policy without best effort, read back from the Response:
+        # the model's Server entry with best_effort False (Missing = no response but the MissingValue exception)
+        return "(EServer false)"
     return "(%s %s)" % ({"restrict": "ERestrict", "apply": "EApply"}[e], cq_opt(st.get("fo")))
 
 
@@ -1224,6 +1306,217 @@ def gen_subject_id(rng):
     return cases
 
 
+SID_NAMES = ("pairwise-id", "subject-id")
+SID_FORMS = ("opt-omit", "opt-false", "opt-1", "req-same", "req-nofriendly", "req-held", "req-nothold", "opt-held",
+             "opt-nothold", "opt-nonf", "opt-case")
+
+
+def sid_ra(n, form):
+    """The identifier n ITSELF as a RequestedAttribute of the requester's AttributeConsumingService.
+    opt-*: not isRequired="true" (omitted / "false" / "1"); req-same: exactly the dict the store's
+    subject_id_requirement answers; req-nofriendly: required, another dict; *-held / *-nothold: lists a value the
+    user (who holds ["id-" + n]) holds / does not hold; opt-nonf: NameFormat omitted; opt-case: FriendlyName in capitals."""
+    r = mk_ra("urn:oasis:names:tc:SAML:attribute:" + n, URI, n, isreq="true")
+    if form.startswith("opt"):
+        r["isreq"] = {"opt-omit": None, "opt-1": "1"}.get(form, "false")
+    if form == "req-nofriendly":
+        r["friendly"] = None
+    elif form.endswith("-held"):
+        r["values"] = ["id-" + n]
+    elif form.endswith("-nothold"):
+        r["values"] = ["id-other"]
+    elif form == "opt-nonf":
+        r["nf"], r["nf_render"] = UNSPEC, None
+    elif form == "opt-case":
+        r["friendly"] = n.upper()
+    return r
+
+
+def sid_wanted(sid):
+    return list(SID_NAMES) if sid == "any" else [sid] if sid in SID_NAMES else []
+
+
+def sid_listings(sid):
+    """How the requester's AttributeConsumingService lists the identifier(s) its subject-id:req entity attribute asks
+    for (sid without requirement: subject-id stands in): not at all / every form of sid_ra / the OTHER identifier
+    only (sid = any: one of the two only) / optional and required both / one required, the other optional."""
+    targets = sid_wanted(sid) or ["subject-id"]
+    other = [n for n in SID_NAMES if n not in targets]
+    out = [("absent", [])]
+    for form in SID_FORMS:
+        out.append((form, [sid_ra(t, form) for t in targets]))
+    out.append(("other-opt", [sid_ra(o, "opt-false") for o in other] or [sid_ra(targets[0], "opt-false")]))
+    out.append(("twice", [sid_ra(t, "opt-false") for t in targets] + [sid_ra(t, "req-same") for t in targets]))
+    out.append(("mixed", [sid_ra(targets[0], "req-same")] + [sid_ra(t, "opt-omit") for t in (targets[1:] or other)]))
+    return out
+
+
+def sid_fail_sources():
+    """Every place the choice about failing on a missing required attribute can come from:
+    (name, policy, registration authority of the requester, fail_on_missing argument)."""
+    S = mk_sec
+    names = [["mail", None], ["sn", None], ["pairwise-id", None], ["subject-id", None]]
+    return [
+        ("unset", [["default", S()]], None, None),
+        ("no-policy", None, None, None),
+        ("default-true", [["default", S(None, True)]], None, None),
+        ("default-false", [["default", S(None, False)]], None, None),
+        ("sp-true/default-false", [[SP, S(None, True)], ["default", S(None, False)]], None, None),
+        ("sp-unset/default-false", [[SP, S(names, None)], ["default", S(None, False)]], None, None),
+        ("sp-false/default-true", [[SP, S(None, False)], ["default", S(None, True)]], None, None),
+        ("ra-true/default-false", [[RA1, S(None, True)], ["default", S(None, False)]], RA1, None),
+        ("ra-false/default-unset", [[RA1, S(None, False)], ["default", S()]], RA1, None),
+        ("other-ra-false", [[RA2, S(None, False)], ["", S()]], RA1, None),
+        ("arg-false/unset", [["default", S()]], None, False),
+        ("arg-false/true", [["default", S(None, True)]], None, False),
+        ("arg-true/false", [["default", S(None, False)]], None, True),
+    ]
+
+
+def _sid_case(rng, tag, i, sid, listing, have, pol, ra=None, fo=None, entry=None, mode=None, **mdkw):
+    entry = entry or ("restrict", "apply", "server", "aa")[(i + i // 4) % 4]     # every entry point meets every user
+    ident = [("mail", ["a@example.org"]), ("sn", ["x"]), ("title", "The man")] + [(h, ["id-" + h]) for h in have]
+    extra = [ra_for("mail", "uri", "right", isreq="false")]
+    if (i // 4) % 2:
+        extra.append(ra_for("sn", "uri", "right", isreq="true"))
+    ras = copy.deepcopy(listing)
+    at = (0, len(ras), 1)[i % 3]                 # the identifier first / last / in between
+    ras = ras[:at] + extra + ras[at:]
+    mode = mode or ("real" if entry in ("server", "aa") or i % 5 < 3 else "stub")
+    md = mk_md(mode, ras, sid, [], ra, split=(0, 1, 2)[(i // 3) % 3], **mdkw)
+    kw = {"be": None if fo is None else (not fo)} if entry == "server" else {} if entry == "aa" else {"fo": fo}
+    return mk_case(tag, entry, ident, copy.deepcopy(pol), md, rng=rng, **kw)
+
+
+def gen_sid_listing(rng, thorough):
+    """The requester carries the subject-id:req ENTITY ATTRIBUTE and ALSO lists (or does not list) that identifier in
+    its AttributeConsumingService: two descriptions of one requester that the code merges (Policy.restrict).
+    A: subject-id:req 5 (subject-id / pairwise-id / any / none / no attribute) x listing 15 (sid_listings) x what the
+       user holds 4, entry point and position of the identifier taking turns;
+    B: source of the choice about failing 13 (sid_fail_sources) x entry point 4 x (listing 4 with a user who lacks
+       what is required + 1 control who holds it), subject-id:req taking turns;
+    C: spelling of the entity attribute: first value 4 x further values 3 x where they stand 3 x before / after the
+       entity-category attribute 2 (the code reads the FIRST value of the merged attribute)."""
+    cases = []
+    haves = [(), ("pairwise-id",), ("subject-id",), ("pairwise-id", "subject-id")]
+    i = 0
+    for sid in ("subject-id", "pairwise-id", "any", "none", None):
+        for lname, listing in sid_listings(sid):
+            for have in haves:
+                pol = ([["default", mk_sec()]], None, [["default", mk_sec(None, True)]], [[SP, mk_sec()]])[(i // 3) % 4]
+                cases.append(_sid_case(rng, "sid-listing-" + lname, i, sid, listing, have, pol))
+                i += 1
+    i = 0
+    for fname, pol, ra, fo in sid_fail_sources():
+        for entry in ("restrict", "apply", "server", "aa"):
+            if entry == "aa" and fo is not None:
+                continue          # the attribute authority has no argument about failing
+            # per listing a user who LACKS what is required (nothing / only the other identifier / one of the two
+            # that `any` asks for), plus one control who holds everything
+            for j, lname in enumerate(("absent", "opt-omit", "opt-false", "req-same", "opt-held")):
+                sid = ("subject-id", "pairwise-id", "any")[(i + i // 5) % 3]
+                want = sid_wanted(sid)
+                other = tuple(n for n in SID_NAMES if n not in want)
+                have = tuple(SID_NAMES) if j == 4 else ((), other or (want[0],))[(i // 2) % 2]
+                listing = dict(sid_listings(sid))[lname]
+                cases.append(_sid_case(rng, "sid-fail-" + fname, i, sid, listing, have, pol, ra=ra, fo=fo, entry=entry))
+                i += 1
+    i = 0
+    for first in ("subject-id", "pairwise-id", "any", "none"):
+        for more in (["none"], ["subject-id"], ["pairwise-id", "any"]):
+            for shape in ("one", "two-attrs", "two-ext"):
+                for sid_first in (False, True):
+                    have = haves[i % 4]
+                    listing = dict(sid_listings(first))[("absent", "opt-false", "opt-omit")[i % 3]]
+                    c = _sid_case(rng, "sid-spelling", i, first, listing, have, [["default", mk_sec()]],
+                                  entry=("restrict", "server", "apply", "aa")[(i + i // 4) % 4], sid_more=more,
+                                  sid_shape=shape, sid_first=sid_first, sid_nonf=(i % 5 == 0), mode="real")
+                    if i % 2:
+                        c["md"]["ecs"] = ["http://unknown.example.org/c"]
+                    cases.append(c)
+                    i += 1
+    return cases
+
+
+def gen_random_sid(rng, n):
+    """Random identities x policies x requester metadata, forced into the neighbourhood: the requester has a
+    subject-id:req entity attribute and lists one or both identifiers in a random form at a random place."""
+    cases = []
+    for i in range(n):
+        entry = ("restrict", "apply", "server", "aa")[i % 4]
+        server = entry in ("server", "aa")
+        ident = rand_ident(rng, server=server, names=["mail", "sn", "pairwise-id", "subject-id", "givenName", "Foo",
+                                                      "title", "subject-id", "pairwise-id"])
+        ident = [(k, v) for k, v in ident if k]
+        ra_known = rng.choice([None, RA1])
+        pol = rand_pol(rng, ident, ra_known, ec_p=0.1)
+        md = rand_md(rng, ident, pol, mode="real" if server else None)
+        if ra_known and rng.random() < 0.6:
+            md["ra"] = ra_known
+        md["sid"] = rng.choice(["any", "pairwise-id", "subject-id", "subject-id", "pairwise-id", "none"])
+        for t in rng.sample(SID_NAMES, rng.choice([1, 1, 2])):
+            md["ras"].insert(rng.randrange(len(md["ras"]) + 1), sid_ra(t, rng.choice(SID_FORMS)))
+        if md["mode"] == "real" and rng.random() < 0.3:
+            md["sid_more"] = [rng.choice(["none", "any", "subject-id", "pairwise-id"])]
+            md["sid_shape"] = rng.choice(["one", "two-attrs", "two-ext"])
+            if rng.random() < 0.5:
+                md["sid_first"] = True
+        fo = rng.choice([None, None, None, True, False])
+        kw = {"be": rng.choice([None, False, True])} if entry == "server" else {} if entry == "aa" else {"fo": fo}
+        if entry == "aa" and not ident:
+            ident = [("mail", ["a@example.org"])]     # create_attribute_response is given an identity
+        cases.append(mk_case("rand-sid", entry, ident, pol, md, rng=rng, **kw))
+    return cases
+
+
+def gen_life_sid(rng):
+    """Lives in the same neighbourhood: ONE Policy / Server, the requester's subject-id:req attribute stays while
+    the way it lists the identifier changes (optional -> required -> not at all -> optional ...), the listing stays
+    while the requirement changes, and a federation of requesters each with its own combination, called in turn."""
+    cases = []
+    full = [("mail", ["a@example.org"]), ("sn", ["x"]), ("pairwise-id", ["id-pairwise-id"]),
+            ("subject-id", ["id-subject-id"])]
+    lack_pw = [kv for kv in full if kv[0] != "pairwise-id"]
+    lack_both = full[:2]
+    r_mail = ra_for("mail", "uri", "right", isreq="false")
+
+    def pw(f):
+        return [sid_ra("pairwise-id", f)]
+
+    def sj(f):
+        return [sid_ra("subject-id", f)]
+
+    for host, store in life_hosts(rng):
+        mode = "stub" if store == "stub" else "real"
+
+        def md(sid, listing):
+            return mk_md(mode, [dict(r_mail)] + copy.deepcopy(listing), sid)
+
+        scen = {
+            "listing-wave": [md("pairwise-id", pw("opt-false")), md("pairwise-id", pw("req-same")), md("pairwise-id", []),
+                             md("pairwise-id", pw("opt-omit")), md(None, pw("opt-omit")), md("pairwise-id", pw("opt-omit"))],
+            "req-wave": [md(None, sj("opt-false")), md("subject-id", sj("opt-false")), md("none", sj("opt-false")),
+                         md("any", sj("opt-false")), md("pairwise-id", sj("opt-false")), md("subject-id", sj("opt-false"))],
+        }
+        for fail in (None, False):
+            for name, mds_ in scen.items():
+                for idn in (lack_both, lack_pw):
+                    steps = [life_step(rng, host, idn, SP, x, fo=rng.choice([None, None, False, True]),
+                                       be=rng.choice([None, None, True])) for x in mds_]
+                    cases.append(mk_life("life-sid-" + name, host, store, [["default", mk_sec(None, fail)]], steps, rng))
+        # a federation: every requester its own (requirement, listing); the users take turns
+        combos = [("subject-id", sj("opt-omit")), ("subject-id", []), (None, sj("opt-false")), ("any", pw("opt-false")),
+                  ("pairwise-id", pw("req-same")), ("pairwise-id", sj("opt-false")), ("none", pw("opt-1")),
+                  ("any", pw("req-same") + sj("opt-held"))]
+        sps = ["https://sp%d.example.org/sp.xml" % k for k in range(len(combos))]
+        order = list(range(len(combos)))
+        rng.shuffle(order)
+        steps = [life_step(rng, host, (lack_both, lack_pw, full)[n % 3], sps[k], md(*combos[k]))
+                 for n, k in enumerate(order + order[::-1][:4])]
+        cases.append(mk_life("life-sid-federation", host, store, [["default", mk_sec()]], steps, rng))
+    return cases
+
+
 def gen_random(rng, n, entries):
     cases = []
     for i in range(n):
@@ -1289,6 +1582,15 @@ def server_product(rng):
                                ra_for("displayName", "basic", "right")]
                     pol = [[rng.choice(["default", SP]), mk_sec(copy.deepcopy(ar), fail)]]
                     cases.append(mk_case("server-missing", "server", ident, pol, mk_md("real", ras, sid), rng=rng, be=be))
+    return cases
+
+
+def aa_product(rng):
+    """Server.create_attribute_response (the attribute authority's policy): the server product without best_effort."""
+    cases = []
+    for c in server_product(rng):
+        if c["be"] is None:
+            cases.append(dict(c, tag="aa-missing", entry="aa"))
     return cases
 
 
@@ -1643,10 +1945,24 @@ def generate(ctx):
     cases += gen_random(rng, 6000 if t else 1200, ["foa", "filter", "restrict", "apply", "restrict", "apply"])
     cases += gen_server(rng, 1200 if t else 190)
     cases += gen_lives(rng, t)
+    # round 5 (appended, so that the streams above stay what they were)
+    cases += gen_sid_listing(rng, t)
+    cases += aa_product(rng)
+    cases += gen_random_sid(rng, 900 if t else 150)
+    cases += gen_life_sid(rng)
     return cases
 
 
 # ------------------------------------------------------------------------------ evidence
+def sid_listed(md):
+    """How the requester itself lists the subject identifiers: '-' (not), 'opt', 'req', 'opt+req'."""
+    ks = set()
+    for r in md["ras"]:
+        if r["name"].lower().startswith("urn:oasis:names:tc:saml:attribute:") and r["name"].lower().endswith("-id"):
+            ks.add("req" if r["isreq"] == "true" else "opt")
+    return "+".join(sorted(ks)) or "-"
+
+
 def nontrivial(case, obs):
     pol = case["pol"]
     if case["entry"] == "life":
@@ -1668,7 +1984,8 @@ def nontrivial(case, obs):
     seckinds = tuple(sorted((("sp" if w == SP else "ra" if w in (RA1, RA2) else w if w in ("default", "") else "other"),
                              None if s is None else (bool(s["ar"]), s["fail"], bool(s["ecs"]))) for w, s in (pol or [])))
     md = case["md"]
-    decl = None if md is None else (md["mode"], min(len(md["ras"]), 3), md["sid"], min(len(md["ecs"]), 2), md["ra"] is not None)
+    decl = None if md is None else (md["mode"], min(len(md["ras"]), 3), md["sid"], min(len(md["ecs"]), 2), md["ra"] is not None,
+                                    sid_listed(md))
     if case["entry"] in ("foa", "filter"):
         decl = (decl, min(len(case["req"]), 2), min(len(case["opt"]), 2))
     out = obs["out"]["k"]
@@ -1682,7 +1999,8 @@ def nontrivial(case, obs):
 def histogram(cases, observed):
     h = {"by_tag": {}, "by_entry": {}, "outcome": {}, "exceptions": {}, "store": {}, "released_fraction": {},
          "str_valued_attrs": 0, "repeated_values": 0, "ec_sections": 0, "regex_sections": 0,
-         "server_best_effort_x_outcome": {}, "fail_on_missing_arg_x_outcome": {}, "nostore_with_entity_categories": {}}
+         "server_best_effort_x_outcome": {}, "fail_on_missing_arg_x_outcome": {}, "nostore_with_entity_categories": {},
+         "attribute_authority_outcome": {}, "subject_id_req_x_own_listing_x_outcome": {}}
     h["lives"] = {"calls": 0, "by_host_store": {}, "length": {}, "store_refreshed_before_call": 0, "refresh_kind": {},
                   "second_requester_calls": 0, "release_vs_previous_call_same_requester": {}, "call_entry": {},
                   "call_outcome": {}}
@@ -1725,7 +2043,15 @@ def histogram(cases, observed):
         h["store"][st] = h["store"].get(st, 0) + 1
         kind = "assertion" if k == "ok" else ("error-response" if o["out"].get("via") == "error-response" else
                                               "MissingValue" if k == "missing" else "exception")
-        if c["entry"] == "server":
+        if c["md"] is not None and c["entry"] in ("restrict", "apply", "server", "aa") and (
+                c["md"]["sid"] is not None or sid_listed(c["md"]) != "-"):
+            key = "req=%s%s listed=%s -> %s" % (c["md"]["sid"], "+more" if c["md"].get("sid_more") else "",
+                                                sid_listed(c["md"]), kind)
+            d = h["subject_id_req_x_own_listing_x_outcome"]
+            d[key] = d.get(key, 0) + 1
+        if c["entry"] == "aa":
+            h["attribute_authority_outcome"][kind] = h["attribute_authority_outcome"].get(kind, 0) + 1
+        elif c["entry"] == "server":
             key = "best_effort=%s -> %s" % (c["be"], kind)
             h["server_best_effort_x_outcome"][key] = h["server_best_effort_x_outcome"].get(key, 0) + 1
         elif c["entry"] != "foa":
